@@ -277,6 +277,25 @@ def add_model(prog):
                     if d[0] == "k" or (d[0] == "call" and d[1] == "slice::len"):
                         m["L"] = T.linear(tm.call_term(bi))
                         m["L_block"] = bi
+    if m["L"] is None:
+        # `match position(is_none) { Some(i) => i, None => N }`: a local with exactly these two definitions
+        for l_ in range(b.arg_count + 1, len(b.locals)):
+            wd = b.whole_defs(l_)
+            if len(wd) != 2 or len(b.defs().get(l_, [])) != 2 or b.local_ty(l_) != "usize":
+                continue
+            ds = [tm.call_term(dbi) if dsi == "term" else tm.rvalue(b.blocks[dbi]["stmts"][dsi]["rv"]) for dbi, dsi in wd]
+            caps = [d for d in ds if d[0] == "k"]
+            pos = [d for d in ds if d[0] == "f" and d[1][0] == "as" and d[1][2] == "Some" and d[1][1][0] == "call" and d[1][1][1].endswith("::position")]
+            if len(caps) == 1 and len(pos) == 1:
+                pc = pos[0][1][1]
+                clos = [x for x in T.walk(pc[2][1]) if x[0] == "agg" and x[1].startswith("closure:")]
+                cb = prog.body(clos[0][1][len("closure:"):]) if clos else None
+                whole = not any(x[0] == "call" and x[1].endswith("::index") for x in T.walk(pc[2][0]))
+                if cb is not None and whole:
+                    ctm = T.Terms(cb, prog)
+                    rets = [ctm.call_term(rb) if si == "term" else ctm.rvalue(rv) for rb, si, rv in lib.assignments_to_return(cb)]
+                    if len(rets) == 1 and rets[0][0] == "call" and rets[0][1] == "core::option::Option::is_none":
+                        m["L"] = T.linear(("l", l_))
     for bi, si, s in b.stmts():
         if s["k"] != "assign":
             continue
